@@ -56,6 +56,8 @@ type Upd = Vec<(String, u32)>;
 enum Cmd {
     Sp(&'static str, Option<Upd>),
     Uf(Upd),
+    /// clear the runtime's stop flag from inside the callback
+    St,
     Gf(String, String),          // field hex (as given), field
     Gfp(String, String, String), // pname, field hex (as given), field
     Cu(String, Upd),             // the flow compiles the program text itself (lang::compile with overrides); scope kept as <pname>_c
@@ -100,6 +102,7 @@ fn parse_cmd(s: &str) -> Option<Cmd> {
     match p[..] {
         ["sp", n, u] if is_pname(n) => Some(Cmd::Sp(intern(n), if u == "-" { None } else { Some(parse_upd(u)?) })),
         ["uf", u] => Some(Cmd::Uf(if u == "-" { vec![] } else { parse_upd(u)? })),
+        ["st"] => Some(Cmd::St),
         ["gf", f] => Some(Cmd::Gf(f.to_string(), xstr(f)?)),
         ["gfp", n, f] if is_pname(n) => Some(Cmd::Gfp(n.to_string(), f.to_string(), xstr(f)?)),
         ["cu", n, u] if is_pname(n) => Some(Cmd::Cu(n.to_string(), if u == "-" { vec![] } else { parse_upd(u)? })),
@@ -256,6 +259,9 @@ struct St {
     closes: usize,
     /// when the case asks for it: a COPY of the first flow's handle kept outside the runtime (a handle that outlives its owner)
     park: bool,
+    /// the runtime's stop flag, for the policy command `st` (a flow that requests the stop from inside a callback); weak, so that
+    /// the strong count the trace reports is not disturbed
+    flag: Option<std::sync::Weak<AtomicBool>>,
 }
 
 thread_local! {
@@ -554,6 +560,13 @@ impl Fl {
                         Err(_) => "UF ERR".to_string(),
                     },
                 },
+                Cmd::St => {
+                    let f = lk(&self.sh).flag.as_ref().and_then(|w| w.upgrade());
+                    if let Some(f) = f {
+                        f.store(false, Ordering::SeqCst);
+                    }
+                    "ST".to_string()
+                }
                 Cmd::Gf(h, f) => format!("GF {} {}", h, gf_res(rep, self.cur.as_ref(), f)),
                 Cmd::Gfp(p, h, f) => format!("GFP {} {} {}", p, h, gf_res(rep, self.scopes.get(p), f)),
                 Cmd::Cu(p, upd) => {
@@ -707,6 +720,7 @@ pub fn run(args: &[&str]) -> String {
     // first flow's handle outside the runtime; every other case registers the algorithms BY REFERENCE (`&'static A: CongAlg`)
     let n_items = items.len();
     lk(&sh).park = n_items % 3 == 0;
+    lk(&sh).flag = Some(Arc::downgrade(&flag));
     PARKED.with(|p| *p.borrow_mut() = None);
     let by_ref = n_items % 2 == 1;
     let sock = Sock(Arc::new(SockInner { script: Mutex::new(items), fail: AtomicUsize::new(0), flag: flag.clone(), images, sh: sh.clone() }));
